@@ -12,7 +12,7 @@ ROOT = os.path.dirname(os.path.dirname(os.path.abspath(__file__)))
 sys.path.insert(0, os.path.join(ROOT, "tools"))
 from mutants import M
 
-SCR = os.environ.get("VP_SELFTEST_DIR", "/tmp/vpmut")
+SCR = os.environ.get("VP_SELFTEST_DIR", "/tmp/vpseedrun" if "--seeded" in sys.argv else "/tmp/vpmut")
 REPO = os.path.join(SCR, "repo")
 VER = os.path.join(SCR, "verif")
 ENV = dict(os.environ, CARGO_NET_OFFLINE="true")
@@ -65,8 +65,36 @@ def apply(mut):
     return saved, None
 
 def restore(saved):
+    if "__patch__" in saved:
+        sh("git checkout -- . && git clean -fdq tests", cwd=REPO)
+        return
     for p, s in saved.items():
         open(p, "w").write(s)
+
+def load_seeded():
+    """independently seeded changes under /verif/seeded/<id>/ (patch.diff, demo.rs, meta.json)"""
+    out = []
+    d = os.path.join(ROOT, "seeded")
+    for name in sorted(os.listdir(d)) if os.path.isdir(d) else []:
+        mp = os.path.join(d, name, "meta.json")
+        if not os.path.exists(mp):
+            continue
+        meta = json.load(open(mp))
+        out.append({"id": name, "prop": meta["property"], "expect": "detect", "edits": [], "note": meta.get("summary", ""),
+                    "patch": os.path.join(d, name, "patch.diff"), "demo": os.path.join(d, name, "demo.rs"), "dir": os.path.join(d, name)})
+    return out
+
+def apply_patch(mut):
+    rc, out = sh(f"git apply --whitespace=nowarn {mut['patch']}", cwd=REPO)
+    if rc != 0:
+        return None, "patch does not apply: " + out[:200]
+    return {"__patch__": mut["patch"]}, None
+
+def demo_run():
+    rc, out = sh("timeout 600 cargo test --offline --test demo 2>&1 | tail -n 40", cwd=REPO, timeout=900)
+    res = [l for l in out.splitlines() if l.startswith("test result")]
+    ok = bool(res) and all(" 0 failed" in l for l in res)
+    return ok, (res[-1] if res else out[-300:])
 
 def main():
     args = sys.argv[1:]
@@ -79,14 +107,20 @@ def main():
         prop = args[args.index("--prop") + 1]
     setup()
     results = []
+    muts = M
+    if "--seeded" in args:
+        muts = load_seeded()
     try:
-        for mut in M:
+        for mut in muts:
             if only and mut["id"] not in only:
                 continue
             if prop and mut["prop"] != prop:
                 continue
             t0 = time.time()
-            saved, err = apply(mut)
+            if "patch" in mut:
+                saved, err = apply_patch(mut)
+            else:
+                saved, err = apply(mut)
             r = {"id": mut["id"], "prop": mut["prop"], "expect": mut["expect"], "note": mut["note"]}
             if err:
                 r["status"] = "BROKEN-MUTANT: " + err
@@ -98,6 +132,15 @@ def main():
             if "error" in out and passed == 0:
                 r["status"] = "BROKEN-MUTANT: does not compile: " + out[:300]
                 restore(saved); results.append(r); print(json.dumps(r), flush=True); continue
+            if "demo" in mut and os.path.exists(mut["demo"]):
+                shutil.copy(mut["demo"], os.path.join(REPO, "tests", "demo.rs"))
+                ok_with, msg_with = demo_run()
+                r["demo_with_change"] = ("PASSES (unexpected)" if ok_with else "fails") + ": " + msg_with[:120]
+                sh(f"git apply -R --whitespace=nowarn {mut['patch']}", cwd=REPO)
+                ok_wo, msg_wo = demo_run()
+                r["demo_without_change"] = ("passes" if ok_wo else "FAILS (unexpected)") + ": " + msg_wo[:120]
+                sh(f"git apply --whitespace=nowarn {mut['patch']}", cwd=REPO)
+                os.remove(os.path.join(REPO, "tests", "demo.rs"))
             checks = [mut["prop"]]
             if all_checks:
                 checks = ["C%02d" % i for i in range(1, 19)]
@@ -125,7 +168,7 @@ def main():
         if "--keep" not in args:
             teardown()
     os.makedirs(os.path.join(ROOT, "notes"), exist_ok=True)
-    outp = os.path.join(ROOT, "notes", "selftest-results.json")
+    outp = os.path.join(ROOT, "notes", "seeded-results.json" if "--seeded" in args else "selftest-results.json")
     prev = []
     if os.path.exists(outp) and (only or prop):
         prev = [x for x in json.load(open(outp)) if x["id"] not in {r["id"] for r in results}]
